@@ -1623,7 +1623,8 @@ func VariablesAreInputTypesRule(context *ValidationContext) *ValidationRuleInsta
 						ttype, _ := typeFromAST(*context.Schema(), node.Type)
 
 						// If the variable type is not an input type, return an error.
-						if ttype != nil && !IsInputType(ttype) {
+						// an unknown named type at any wrapping depth is KnownTypeNames' business
+						if ttype != nil && GetNamed(ttype) != nil && !IsInputType(ttype) {
 							variableName := ""
 							if node.Variable != nil && node.Variable.Name != nil {
 								variableName = node.Variable.Name.Value
